@@ -246,7 +246,7 @@ func (w *World) abstractFinal() string {
 				q := p.Spec.Containers[0].Resources.Requests["cpu"]
 				cpu = q.String()
 			}
-			per[kit.NodeOfPod(p)] = append(per[kit.NodeOfPod(p)], fmt.Sprintf("%s/ready=%v/cpu=%s", kit.MarkerOfPod(p), kit.IsReady(p), cpu))
+			per[kit.NodeOfPod(p)] = append(per[kit.NodeOfPod(p)], fmt.Sprintf("%s/ready=%v/cpu=%s/canary-label=%v", kit.MarkerOfPod(p), kit.IsReady(p), cpu, p.Labels[v1.ExtendedDaemonSetReplicaSetCanaryLabelKey] != ""))
 		}
 		var nodes []string
 		for n := range per {
